@@ -136,6 +136,13 @@ def load_symbolic():
     src = src_dir()
     sm = StructModel("struct")
     sys.modules["struct"] = sm
+    import functools as real_functools
+
+    ft = types.ModuleType("functools")
+    ft.__dict__.update(real_functools.__dict__)
+    ft.lru_cache = symbytes.sx_lru_cache
+    ft.cache = symbytes.sx_lru_cache(maxsize=None)
+    sys.modules["functools"] = ft
     try:
         pkg = types.ModuleType("someip")
         pkg.__path__ = [os.path.join(src, "someip")]
@@ -156,6 +163,7 @@ def load_symbolic():
             exec(compile(tree, path, "exec"), mod.__dict__)
     finally:
         sys.modules["struct"] = real_struct
+        sys.modules["functools"] = real_functools
     hdr = pkg.header
     # ip address construction from (possibly symbolic) packed bytes
     hdr.AbstractIPv4Option._address_type = staticmethod(symbytes.ipv4)
@@ -163,6 +171,7 @@ def load_symbolic():
     # option registry: equality-scan lookup for symbolic type bytes
     hdr.SOMEIPSDOption._options = symbytes.ScanDict(hdr.SOMEIPSDOption._options)
     pkg.__verif_mode__ = "symbolic"
+    snapshot_globals(pkg)
     return pkg
 
 
@@ -179,4 +188,73 @@ def load_concrete():
         importlib.import_module("someip." + n)
     assert os.path.realpath(pkg.__file__).startswith(os.path.realpath(src)), pkg.__file__
     pkg.__verif_mode__ = "concrete"
+    snapshot_globals(pkg)
+    collect_lru(pkg)
     return pkg
+
+
+# ------------------------------------------------------------------ path isolation of module state
+_SNAP = []
+
+
+def snapshot_globals(pkg):
+    """remember the content of every mutable module-level (and class-level) container of the
+    repository's modules right after import"""
+    del _SNAP[:]
+    for name in NAMES:
+        mod = getattr(pkg, name)
+        spaces = [mod.__dict__]
+        for v in list(mod.__dict__.values()):
+            if isinstance(v, type) and getattr(v, "__module__", None) == mod.__name__:
+                spaces.append(v.__dict__)
+        for ns in spaces:
+            for k, v in list(ns.items()):
+                if k.startswith("__") and k.endswith("__"):
+                    continue
+                if type(v) in (dict, list, set) or type(v).__name__ in ("ScanDict", "defaultdict", "OrderedDict", "deque"):
+                    try:
+                        _SNAP.append((v, v.copy()))
+                    except Exception:  # noqa: BLE001
+                        pass
+
+
+def reset_state():
+    """called before every explored path / concrete item: module-level caches a change to the
+    repository may introduce must not leak from one path into the next"""
+    symbytes.reset_caches()
+    for obj, saved in _SNAP:
+        if isinstance(obj, (dict,)):
+            if len(obj) != len(saved) or any(k not in saved for k in obj):
+                obj.clear()
+                obj.update(saved)
+        elif isinstance(obj, list):
+            if len(obj) != len(saved):
+                obj[:] = saved
+        elif isinstance(obj, set):
+            if obj != saved:
+                obj.clear()
+                obj.update(saved)
+        else:
+            try:
+                obj.clear()
+                obj.extend(saved) if hasattr(obj, "extend") else obj.update(saved)
+            except Exception:  # noqa: BLE001
+                pass
+    # functools.lru_cache objects of the unlowered modules (concrete mode)
+    for f in _LRU:
+        f.cache_clear()
+
+
+_LRU = []
+
+
+def collect_lru(pkg):
+    del _LRU[:]
+    for name in NAMES:
+        mod = getattr(pkg, name)
+        seen = [mod.__dict__] + [v.__dict__ for v in mod.__dict__.values() if isinstance(v, type) and getattr(v, "__module__", None) == mod.__name__]
+        for ns in seen:
+            for v in list(ns.values()):
+                f = getattr(v, "__func__", v)
+                if hasattr(f, "cache_clear") and hasattr(f, "cache_info"):
+                    _LRU.append(f)
